@@ -82,7 +82,11 @@ func (c *Ctx) condRel(it Item) Rel {
 		return Rel{}
 	}
 	if it.Cond != nil {
-		return c.P.RelOf(it.Cond, it.Pol, it.Frame)
+		fr := it.CondFrame
+		if fr == nil {
+			fr = it.Frame
+		}
+		return c.P.RelOf(it.Cond, it.Pol != it.CondNeg, fr)
 	}
 	return c.P.RelOf(ifi.Cond, it.Pol, it.Frame)
 }
